@@ -200,3 +200,14 @@ pub fn next_matchable_cache_key() -> MatchableCacheKey {
     ID.fetch_update(Ordering::Relaxed, Ordering::Relaxed, |id| id.checked_add(1))
         .unwrap()
 }
+
+/// Verification hooks (only with `--cfg sqruff_verif`): node identity of a shared grammar element.
+#[cfg(sqruff_verif)]
+impl Matchable {
+    pub fn verif_ptr(&self) -> usize {
+        Arc::as_ptr(&self.inner) as usize
+    }
+    pub fn verif_inner(&self) -> &MatchableTraitImpl {
+        &self.inner
+    }
+}
